@@ -19,7 +19,12 @@ def get : SigMap → Sig → I32
   | [], _ => 0
   | (k, v) :: m, s => (if k = s then v else 0) + get m s
 
-def keys (m : SigMap) : List Sig := (m.map Prod.fst).eraseDups
+/-- first occurrences, in order -/
+def dedup : List Sig → List Sig
+  | [] => []
+  | k :: l => k :: (dedup l).filter (fun x => x != k)
+
+def keys (m : SigMap) : List Sig := dedup (m.map Prod.fst)
 
 /-- The signals present on the wire (non-zero total), each once, in first-occurrence order. -/
 def support (m : SigMap) : List Sig := (keys m).filter (fun k => get m k != 0)
